@@ -89,7 +89,9 @@ impl<'a> Task<'a> {
 
     #[inline(always)]
     fn is_attr(attr: &str) -> bool {
-        Self::get_field_names().contains(attr)
+        // `module`, `params` and `global_params` are internal fields, not task keywords
+        !matches!(attr, "module" | "params" | "global_params")
+            && Self::get_field_names().contains(attr)
     }
 
     #[inline(always)]
